@@ -251,6 +251,70 @@ const ITER_METHODS: &[&str] = &[
 ];
 const LIBM: &[&str] = &["powf", "ln", "exp", "log2", "log10", "log", "sin", "cos", "tan", "exp2", "ln_1p", "exp_m1", "tanh", "atan2", "cbrt", "hypot"];
 
+/// adapters after which a hash container is still a hash container (or a guard / reference to it)
+const PASS_METHODS: &[&str] = &["clone", "to_owned", "as_ref", "as_mut", "borrow", "borrow_mut", "lock", "read", "write", "unwrap", "expect", "deref", "deref_mut", "by_ref", "cloned", "copied"];
+/// calls that iterate their argument
+const ITER_SINKS: &[&str] = &["extend", "from_iter", "chain", "zip", "extend_from_slice"];
+
+/// index after a chain of `. pass ( … )` segments starting at `j` (which must point at the first `.`)
+fn pass_chain_end(t: &[Tok], mut j: usize) -> usize {
+    let at = |i: usize| -> &str { if i < t.len() { t[i].s.as_str() } else { "" } };
+    loop {
+        if at(j) == "." && PASS_METHODS.contains(&at(j + 1)) && at(j + 2) == "(" {
+            let mut d = 0i64;
+            let mut k = j + 2;
+            while k < t.len() {
+                if at(k) == "(" {
+                    d += 1;
+                } else if at(k) == ")" {
+                    d -= 1;
+                    if d == 0 {
+                        break;
+                    }
+                }
+                k += 1;
+            }
+            j = k + 1;
+        } else if at(j) == "?" {
+            j += 1;
+        } else {
+            return j;
+        }
+    }
+}
+
+/// `[&] [mut] [*] a . b . name [. pass ( ) …] <end>` with `name` a hash container: the name
+fn simple_hash_expr(t: &[Tok], start: usize, hn: &BTreeSet<String>, hn_local: &BTreeSet<String>, end: &str) -> Option<String> {
+    let at = |i: usize| -> &str { if i < t.len() { t[i].s.as_str() } else { "" } };
+    let mut j = start;
+    while matches!(at(j), "&" | "mut" | "*") {
+        j += 1;
+    }
+    let mut last = String::new();
+    let mut segments = 0;
+    loop {
+        let x = at(j);
+        if (x == "self" || is_ident(x)) && at(j + 1) != "(" && at(j + 1) != "!" && at(j + 1) != ":" {
+            last = x.to_string();
+            segments += 1;
+            j += 1;
+            if at(j) == "." && (at(j + 1) == "self" || is_ident(at(j + 1))) && at(j + 2) != "(" {
+                j += 1;
+                continue;
+            }
+            break;
+        }
+        return None;
+    }
+    let e = if at(j) == "." { pass_chain_end(t, j) } else { j };
+    // a bare local must be typed in this file; a field path (`self.x`, `a.b.x`) may be typed by its struct anywhere
+    if at(e) == end && (if segments == 1 { hn_local.contains(&last) } else { hn.contains(&last) }) {
+        Some(last)
+    } else {
+        None
+    }
+}
+
 fn is_ident(s: &str) -> bool {
     s.chars().next().map(|c| c.is_alphabetic() || c == '_').unwrap_or(false)
 }
@@ -500,6 +564,13 @@ pub fn scan_file(rel: &str, src: &str, g: &Globals) -> FileScan {
     let code = code_only(src);
     let t = tokens(&code);
     let hn = hash_names(&t, g);
+    // names typed by a declaration in THIS file only (a bare local that merely shares its name with a
+    // hash-typed struct field of another file is not a hash container)
+    let hn_local = {
+        let mut g2 = g.clone();
+        g2.hash_fields.clear();
+        hash_names(&t, &g2)
+    };
     let mut fs = FileScan::default();
     fs.text = t.iter().map(|x| x.s.as_str()).collect::<Vec<_>>().join(" ");
 
@@ -803,10 +874,17 @@ pub fn scan_file(rel: &str, src: &str, g: &Globals) -> FileScan {
                 "ProductionRng" => hit = Some(("entropy", "ProductionRng".into())),
                 "ProductionTimeSource" | "ProductionClock" | "ProductionRuntime" if p1 != "struct" && p1 != "for" && p1 != "impl" => hit = Some(("wall-clock", s.to_string())),
                 "rand" if path_next && n3 == "random" => hit = Some(("entropy", "rand::random".into())),
-                "RandomState" if path_next && n3 == "new" => hit = Some(("entropy", "RandomState::new".into())),
-                "env" if path_next && (n3 == "var" || n3 == "vars" || n3 == "args" || n3 == "var_os") => hit = Some(("environment", format!("env::{}", n3))),
+                // std's and ahash's RandomState: `new()` and `default()` both take per-process random keys
+                "RandomState" if path_next && (n3 == "new" || n3 == "default") => hit = Some(("entropy", format!("RandomState::{}", n3))),
+                "_rdtsc" | "_rdrand64_step" | "_rdrand32_step" | "_rdseed64_step" | "_rdseed32_step" => hit = Some(("entropy", s.to_string())),
+                "env" if path_next && (n3 == "var" || n3 == "vars" || n3 == "args" || n3 == "var_os" || n3 == "vars_os" || n3 == "args_os") => hit = Some(("environment", format!("env::{}", n3))),
+                "current_dir" | "current_exe" | "home_dir" | "hostname" | "gethostname" if n1 == "(" && p1 != "fn" => hit = Some(("environment", s.to_string())),
                 "process" if path_next && n3 == "id" => hit = Some(("environment", "process::id".into())),
-                "thread" if path_next && (n3 == "spawn" || n3 == "current" || n3 == "sleep") => hit = Some((if n3 == "sleep" { "real-sleep" } else { "concurrency" }, format!("thread::{}", n3))),
+                "thread" if path_next && (n3 == "spawn" || n3 == "current" || n3 == "sleep" || n3 == "scope" || n3 == "park" || n3 == "yield_now") => hit = Some((if n3 == "sleep" { "real-sleep" } else { "concurrency" }, format!("thread::{}", n3))),
+                // any other way of starting a thread / task: scoped threads (`s.spawn`), `thread::Builder::new().spawn`,
+                // `tokio::task::spawn`, `handle.spawn`, `rayon::spawn` — everything but the two spellings matched above
+                "spawn" if n1 == "(" && (p1 == "." || p1 == ":") && !(p1 == ":" && i >= 3 && matches!(at(i - 3), "thread" | "tokio")) => hit = Some(("concurrency", "spawn".into())),
+                "available_parallelism" | "num_cpus" => hit = Some(("concurrency", s.to_string())),
                 "tokio" if path_next && n3 == "spawn" => hit = Some(("concurrency", "tokio::spawn".into())),
                 "spawn_blocking" | "spawn_local" | "par_iter" | "par_iter_mut" | "into_par_iter" => hit = Some(("concurrency", s.to_string())),
                 "sleep" if p1 == ":" && n1 == "(" => hit = Some(("real-sleep", "time::sleep".into())),
@@ -815,7 +893,9 @@ pub fn scan_file(rel: &str, src: &str, g: &Globals) -> FileScan {
                 "temp_dir" | "tempdir" | "tempfile" | "NamedTempFile" => hit = Some(("file-system", s.to_string())),
                 "as" if n1 == "*" && (n2 == "const" || n2 == "mut") => hit = Some(("address", "as-raw-pointer".into())),
                 "addr_of" | "addr_of_mut" => hit = Some(("address", s.to_string())),
-                "as_ptr" | "as_mut_ptr" if p1 == "." && n1 == "(" => hit = Some(("address", format!("{}()", s))),
+                "as_ptr" | "as_mut_ptr" if (p1 == "." || p1 == ":") && n1 == "(" => hit = Some(("address", format!("{}()", s))),
+                "into_raw" | "expose_addr" | "expose_provenance" if (p1 == "." || p1 == ":") && n1 == "(" => hit = Some(("address", format!("{}()", s))),
+                "from_ref" | "from_mut" if p1 == ":" && i >= 3 && at(i - 3) == "ptr" => hit = Some(("address", format!("ptr::{}", s))),
                 "MaybeUninit" | "assume_init" | "set_len" => hit = Some(("uninitialised-memory", s.to_string())),
                 "FuturesUnordered" | "JoinSet" | "join_all" | "select_all" => hit = Some(("concurrency", s.to_string())),
                 "select" if n1 == "!" && p1 == ":" => hit = Some(("concurrency", "select!".into())),
@@ -830,6 +910,20 @@ pub fn scan_file(rel: &str, src: &str, g: &Globals) -> FileScan {
             // hash-container iteration: `name . method (`
             if hit.is_none() && hn.contains(s) && n1 == "." && ITER_METHODS.contains(&n2) && n3 == "(" {
                 hit = Some(("hash-iteration", format!("{}.{}", s, n2)));
+            }
+            // … also behind adapters that keep the container a container: `name . clone ( ) . into_iter (`
+            if hit.is_none() && hn.contains(s) && n1 == "." && PASS_METHODS.contains(&n2) {
+                let e = pass_chain_end(&t, i + 1);
+                if e > i + 1 && at(e) == "." && ITER_METHODS.contains(&at(e + 1)) && at(e + 2) == "(" {
+                    hit = Some(("hash-iteration", format!("{}.{}", s, at(e + 1))));
+                }
+            }
+            // a hash container handed over to something that iterates it: `v . extend ( set.clone() )`,
+            // `Vec :: from_iter ( set )`, `a . chain ( & set )`, `a . zip ( set )`
+            if hit.is_none() && ITER_SINKS.contains(&s) && n1 == "(" && (p1 == "." || p1 == ":") {
+                if let Some(name) = simple_hash_expr(&t, i + 2, &hn, &hn_local, ")") {
+                    hit = Some(("hash-iteration", format!("{}.{}-arg", name, s)));
+                }
             }
             // `f ( … ) . method (` with f returning a hash container
             if hit.is_none() && s == ")" && n1 == "." && ITER_METHODS.contains(&n2) && n3 == "(" {
@@ -872,22 +966,9 @@ pub fn scan_file(rel: &str, src: &str, g: &Globals) -> FileScan {
                     steps += 1;
                 }
                 if is_for {
-                    let mut j = i + 1;
-                    let mut simple = true;
-                    let mut last = String::new();
-                    while j < t.len() && at(j) != "{" {
-                        let x = at(j);
-                        if x == "&" || x == "mut" || x == "." || x == "self" {
-                        } else if is_ident(x) {
-                            last = x.to_string();
-                        } else {
-                            simple = false;
-                            break;
-                        }
-                        j += 1;
-                    }
-                    if simple && hn.contains(&last) {
-                        hit = Some(("hash-iteration", format!("{}.for-in", last)));
+                    // `[&] [mut] [*] a . b . name [. clone ( ) …] {`
+                    if let Some(name) = simple_hash_expr(&t, i + 1, &hn, &hn_local, "{") {
+                        hit = Some(("hash-iteration", format!("{}.for-in", name)));
                     }
                 }
             }
@@ -923,13 +1004,92 @@ pub fn scan_file(rel: &str, src: &str, g: &Globals) -> FileScan {
         }
         i += 1;
     }
-    // `{:p}` lives inside string literals: raw text, attributed to no function
-    for (ln, l) in src.lines().enumerate() {
-        if l.contains("{:p}") && !l.trim_start().starts_with("//") {
-            fs.sites.push(Site { file: rel.to_string(), func: "?".into(), kind: "address", what: "{:p}".into(), line: ln + 1, stmt: l.trim().to_string() });
-        }
+    // `{:p}` lives inside string literals: the literal must be an argument of a macro invocation
+    // (`format!`, `println!`, `write!`, `tracing::debug!`, `assert!`, …) to be a format string
+    for (ln, lit_start) in pointer_format_literals(src) {
+        let l = src.lines().nth(ln).unwrap_or("");
+        let _ = lit_start;
+        fs.sites.push(Site { file: rel.to_string(), func: "?".into(), kind: "address", what: "{:p}".into(), line: ln + 1, stmt: l.trim().to_string() });
     }
     fs
+}
+
+/// (line index, char offset) of every string literal that contains a pointer format spec
+/// (`{:p}`, `{:#p}`, `{0:p}`, `{name:p}`, `{:>16p}` …) AND is an argument of a macro invocation
+fn pointer_format_literals(src: &str) -> Vec<(usize, usize)> {
+    let code: Vec<char> = code_only(src).chars().collect();
+    let raw: Vec<char> = src.chars().collect();
+    let mut res = Vec::new();
+    if code.len() != raw.len() {
+        return res;
+    }
+    let mut i = 0;
+    while i < code.len() {
+        if code[i] == '"' {
+            // literal spans to the next '"' of the blanked text
+            let mut j = i + 1;
+            while j < code.len() && code[j] != '"' {
+                j += 1;
+            }
+            let text: String = raw[i..j.min(raw.len())].iter().collect();
+            let mut has = false;
+            let tb: Vec<char> = text.chars().collect();
+            let mut k = 0;
+            while k < tb.len() {
+                if tb[k] == '{' && k + 1 < tb.len() && tb[k + 1] != '{' {
+                    let mut m = k + 1;
+                    while m < tb.len() && tb[m] != '}' && tb[m] != '{' {
+                        m += 1;
+                    }
+                    if m < tb.len() && tb[m] == '}' {
+                        let spec: String = tb[k + 1..m].iter().collect();
+                        if let Some((_, f)) = spec.split_once(':') {
+                            if f.ends_with('p') {
+                                has = true;
+                            }
+                        }
+                    }
+                    k = m;
+                } else if tb[k] == '{' {
+                    k += 1;
+                }
+                k += 1;
+            }
+            if has {
+                // walk back to the innermost unmatched `(` / `[` / `{` and look for `ident !` before it
+                let mut d = 0i64;
+                let mut b = i;
+                let mut in_macro = false;
+                while b > 0 {
+                    b -= 1;
+                    let c = code[b];
+                    if c == ')' || c == ']' || c == '}' {
+                        d += 1;
+                    } else if c == '(' || c == '[' || c == '{' {
+                        if d == 0 {
+                            let mut q = b;
+                            while q > 0 && code[q - 1].is_whitespace() {
+                                q -= 1;
+                            }
+                            in_macro = q > 0 && code[q - 1] == '!';
+                            break;
+                        }
+                        d -= 1;
+                    } else if c == ';' && d == 0 {
+                        break;
+                    }
+                }
+                if in_macro {
+                    let ln = raw[..i].iter().filter(|c| **c == '\n').count();
+                    res.push((ln, i));
+                }
+            }
+            i = j + 1;
+        } else {
+            i += 1;
+        }
+    }
+    res
 }
 
 // ------------------------------------------------------------------------------------------
@@ -1028,7 +1188,7 @@ pub fn scan_tree() -> Tree {
 /// what drives the harnesses: the text of c20.rs (and of the family modules), comments stripped
 fn driver_text() -> String {
     let mut s = String::new();
-    for src in [include_str!("c20.rs"), include_str!("c20_more.rs")] {
+    for src in [include_str!("c20.rs"), include_str!("c20_more.rs"), include_str!("c20_mn.rs"), include_str!("c20_bug.rs")] {
         s.push_str(&code_only(src));
         s.push('\n');
     }
@@ -1082,7 +1242,7 @@ pub const HARNESSES: &[(&str, &str, &str, &str)] = &[
     ("HashDSTHarness", "M", "hash", ""),
     ("SortedSetDSTHarness", "M", "sorted-set", ""),
     ("TransactionDSTHarness", "M", "transaction", ""),
-    ("MultiNodeSimulation", "E", "multi-node", "+ multi-node-gen (generated scenarios)"),
+    ("MultiNodeSimulation", "M", "multi-node", "+ multi-node-gen (generated scenarios), partition (run_partition_test): scripts of API calls predicted by Model/SimMulti (buckets / ring owners probed from the real code); the API scenarios of family multi-node-api stay explored"),
     ("StreamingDSTHarness", "E", "streaming", ""),
     ("StreamingWorkload", "M", "streaming-workload", "operation sequence predicted and compared with the history the real harness records (workload_ops_independent_of_store)"),
     ("CompactionDSTHarness", "E", "compaction", ""),
@@ -1411,9 +1571,9 @@ pub const ALLOWED: &[(&str, usize, &str, &str)] = &[
 /// ran earlier on the thread
 pub const REQUIRED: &[(&str, &str, &str, &str)] = &[
     // (file, function, token sequence that must occur in its body, why)
-    ("src/simulator/dst.rs", "DSTSimulation::with_config", "buggify : : set_config (", "DSTSimulation installs the fault configuration it was given"),
-    ("src/simulator/dst.rs", "DSTSimulation::with_config", "buggify : : reset_stats (", "the statistics copied into SimulationResult start at zero (c6be241)"),
-    ("src/simulator/dst.rs", "DSTSimulation::with_faults", "buggify : : set_config (", "with_faults re-installs"),
+    ("src/simulator/dst.rs", "DSTSimulation::with_config", "set_config (", "DSTSimulation installs the fault configuration it was given"),
+    ("src/simulator/dst.rs", "DSTSimulation::with_config", "reset_stats (", "the statistics copied into SimulationResult start at zero (c6be241)"),
+    ("src/simulator/dst.rs", "DSTSimulation::with_faults", "set_config (", "with_faults re-installs"),
     ("src/streaming/wal_dst.rs", "WalDSTHarness::run", "set_config (", "store faults go through should_buggify_with_prob: own context (474577c)"),
     ("src/streaming/dst.rs", "StreamingDSTHarness::new", "set_config (", "own context (474577c)"),
     ("src/streaming/compaction_dst.rs", "CompactionDSTHarness::new", "set_config (", "own context (474577c)"),
@@ -1450,9 +1610,33 @@ fn sites(tree: &Tree, out: &mut Out) -> serde_json::Value {
     let mut dumped = String::new();
     let mut used: BTreeSet<&str> = BTreeSet::new();
     let mut per_just: BTreeMap<String, u64> = BTreeMap::new();
+    // allow-list entries whose code is still where the list says it is
+    let present: BTreeSet<&str> = by_key.keys().filter_map(|k| allowed.get_key_value(k.as_str()).map(|(k, _)| *k)).collect();
+    let mut taken: BTreeSet<&str> = BTreeSet::new();
+    let mut rekeyed: Vec<String> = Vec::new();
     for (key, ss) in &by_key {
         let first = ss[0];
-        match allowed.get_key_value(key.as_str()) {
+        // a function that was RENAMED, or whose body moved into a helper / another file, keeps its entry: an
+        // unlisted site inherits the entry of the same (kind, receiver.method) whose own code is gone, if that
+        // entry is in the same file or belongs to a function of the same name — the justification is re-checked
+        // on the new body exactly as for a listed site
+        let mut resolved = allowed.get_key_value(key.as_str()).map(|(k, v)| (*k, *v));
+        if resolved.is_none() {
+            let last = |f: &str| f.rsplit("::").next().unwrap_or("").to_string();
+            for (k, n, j, note) in ALLOWED.iter() {
+                if present.contains(k) || taken.contains(k) {
+                    continue;
+                }
+                let p: Vec<&str> = k.split('|').collect();
+                if p.len() == 4 && p[2] == first.kind && p[3] == first.what && (p[0] == first.file || last(p[1]) == last(&first.func)) {
+                    taken.insert(*k);
+                    rekeyed.push(format!("{} -> {}|{}", k, first.file, first.func));
+                    resolved = Some((*k, (*n, *j, *note)));
+                    break;
+                }
+            }
+        }
+        match resolved {
             None => {
                 if dump {
                     dumped.push_str(&format!("    (\"{}\", {}, \"?\", \"\"), // {}:{}  {}\n", key, ss.len(), first.file, first.line, first.stmt.chars().take(160).collect::<String>()));
@@ -1462,6 +1646,7 @@ fn sites(tree: &Tree, out: &mut Out) -> serde_json::Value {
                     json!({"file": first.file, "line": first.line, "function": first.func, "kind": first.kind, "what": first.what, "statement": first.stmt, "occurrences": ss.len()}));
             }
             Some((k, (max, just, _note))) => {
+                let (k, max, just) = (&k, &max, &just);
                 used.insert(*k);
                 *per_just.entry(just.to_string()).or_insert(0) += ss.len() as u64;
                 if ss.len() > *max {
@@ -1516,7 +1701,9 @@ fn sites(tree: &Tree, out: &mut Out) -> serde_json::Value {
     for e in &tree.errors {
         out.violation("C20:source:scan-failed", e, json!({"root": repo_dir()}));
     }
-    if n_files < 60 || n_funcs < 1500 {
+    // "implausibly small": well below what the tree has (93 files / 1556 functions in 2026-09) — a refactoring that
+    // removes a few dozen helpers must not alarm, a scan that silently read a tenth of the tree must
+    if n_files < 40 || n_funcs < 600 {
         out.violation("C20:source:scan-failed", &format!("implausibly small scan: {} files, {} functions under {}/src", n_files, n_funcs, repo_dir()), json!({"root": repo_dir()}));
     }
     let stale: Vec<&str> = ALLOWED.iter().map(|x| x.0).filter(|k| !used.contains(k)).collect();
@@ -1524,7 +1711,8 @@ fn sites(tree: &Tree, out: &mut Out) -> serde_json::Value {
         out.count_n(&format!("source-site:{}", k), *n);
     }
     json!({"files_scanned": n_files, "functions_scanned": n_funcs, "sites_by_kind": per_kind, "sites_by_justification": per_just,
-           "allow_list_entries": ALLOWED.len(), "stale_allow_list_entries(the code they excused is gone)": stale})
+           "allow_list_entries": ALLOWED.len(), "stale_allow_list_entries(the code they excused is gone)": stale,
+           "entries_followed_to_a_renamed_or_moved_function": rekeyed})
 }
 
 pub fn report(out: &mut Out) {
